@@ -59,9 +59,13 @@ def differential(eng, rep, topo, n, steps, mode):
                     at = rng.randrange(10, 150)
                     faults = [(at, lambda p, ephs=ephs: [p.kill(e, True) for e in ephs if e in p.world.tasks])]
                 run_schedule(pipe, None, steps, p_timeout=0.0, quiet=300, faults=faults)
+                # what each consumer got from its SYNCHRONIZED sources (a consumer may also have ephemeral sources of its own)
+                syncpubs = {f: {s_['pub'] for s_ in sync.filters[f]['srcs']} for f in sync.names}
                 res.append((pipe, {g: pub_times(tp, pipe, g) for g in sync.names if tp.filters[g]['nout']},
-                            {f: [(r['id'], {t: v for t, v in r['frames'].items()}) for r in pipe.delivered[f]] for f in sync.names
-                             if all(s['eph'] == 0 for s in tp.filters[f]['srcs'])}))
+                            {f: [x for x in ((r['id'], {t: v for t, v in r['frames'].items()
+                                                        if observers.publisher_of_token(topo, v) in syncpubs[f]})
+                                             for r in pipe.delivered[f]) if x[1]]
+                             for f in sync.names if sync.filters[f]['srcs']}))
             except BaseException:
                 pipe.close()
                 raise
@@ -124,6 +128,8 @@ def scenarios(quick):
               (topos.with_required(T.tee_rejoin_eph(maxseq=8)), 3 if quick else 40, 3000, 'kill'),
               # a '?' listener on the endpoint of a slow worker of a balanced splitter
               (T.balance2_eph(maxseq=40), 3 if quick else 40, 9000, 'late'),
+              # a consumer that lists an ephemeral source before its synchronized one
+              (topos.with_required(T.eph_first(maxseq=40, slowK=True)), 3 if quick else 40, 12000, 'run'),
               # the same with the listener attached from the very start (before the slow worker has registered): known finding
               (balance2_eph_first(maxseq=10), 2 if quick else 10, 4000, 'run')],
     )
